@@ -30,7 +30,7 @@ dvars == <<vars, q, dv>>
 FK(x) == x.id \o "@" \o x.file       \* rendered text of a finding (model: id and file)
 
 Rec(k, c, m) == [inl |-> SupprInfo[k].inl, local |-> SupprInfo[k].local, wild |-> SupprInfo[k].wild,
-                 line |-> SupprInfo[k].line, checked |-> c, matched |-> m]
+                 line |-> SupprInfo[k].line, checked |-> c, matched |-> m, id |-> k, file |-> k]
 
 CmdList == [k \in CmdKeys |-> Rec(k, FALSE, FALSE)]
 
@@ -194,7 +194,7 @@ DFinish ==
         /\ ~Busy
         /\ ExecFinished(result) /\ UNCHANGED dv
      \/ /\ phase = "wp" /\ WpDone /\ UNCHANGED dv
-     \/ /\ phase = "post" /\ dv["main"].stage = "none"
+     \/ /\ phase = "post" /\ dv["main"].stage = "none" /\ wk["main"].pend = {}
         /\ LET cand == {k \in DOMAIN sl["main"] : k \notin unm /\ ENABLED Unmatched(k)} IN
              IF cand # {}
              THEN LET k == CHOOSE k \in cand : TRUE IN
@@ -202,7 +202,8 @@ DFinish ==
              ELSE UnmatchedDone(unm # {}) /\ SetDv("main", [dv["main"] EXCEPT !.stage = "mexit"])
      \/ /\ phase = "post" /\ dv["main"].stage = "umemit"
         /\ LET k == CHOOSE k \in dv["main"].todo : TRUE
-               x == [id |-> "unmatchedSuppression", sev |-> "information", inc |-> FALSE, file |-> k, line |-> 0, col |-> 0, msg |-> k]
+               x == [id |-> "unmatchedSuppression", sev |-> "information", inc |-> FALSE, file |-> k,
+                     line |-> IF SupprInfo[k].line = -1 THEN 0 ELSE SupprInfo[k].line, col |-> 0, msg |-> "Unmatched suppression: " \o k]
            IN EmitDirect(x, FK(x), ~EmitDup /\ FK(x) \in shown)
         /\ SetDv("main", [dv["main"] EXCEPT !.stage = "none", !.todo = {}])
      \/ /\ phase = "post" /\ dv["main"].stage = "mexit" /\ Exit(IF result # 0 THEN ExitCode ELSE 0) /\ UNCHANGED dv
